@@ -7,6 +7,9 @@
 import BB.Proofs.Basic
 import Mathlib.Tactic.Linarith
 import BB.Properties.C14
+import BB.Proofs.G3Awg
+import BB.Proofs.G3Wave
+import BB.Proofs.G3Check
 
 namespace BB.C15
 open BB BB.Sequence
@@ -277,5 +280,886 @@ theorem seqx_flags_content (s : Sequence) (d : Deferred SEQXPkg) (pkg : SEQXPkg)
               refine ⟨c, ?_, ?_⟩
               · simp [List.getElem?_eq_getElem hpp, List.getElem?_eq_getElem hi, hc]
               · simp [List.getElem?_eq_getElem hi', List.getElem?_eq_getElem hp', ec]
+
+/-! ### the delivered package, tied to `Sequence.channels` and the amplitude settings -/
+
+/-- **content and shape of the SEQX package, tied to `Sequence.channels`**: with `chans` =
+    `Sequence.channels` and `P` the forged elements, `amplitudes` is the list of the numeric
+    amplitude settings of `chans[0], chans[1], ...` (padded with one 0 for a single channel);
+    there is one waveform column per channel with one entry per position; `wfms[i][p]` is
+    (waveform in volts, marker 1, marker 2) of channel `chans[i]` of `P[p]`; the five sequencing
+    lists have one entry per position, holding the values of the sequencing entry of position
+    `p + 1`, which passed the AWG70000A checks; `seqname` is the sequence's name -/
+theorem seqx_content_channels (s : Sequence) (d : Deferred SEQXPkg) (pkg : SEQXPkg)
+    (h : s.outputForSEQXFile = .ok d) (hp : d.pkg = some pkg) :
+    ∃ (P : List (Dict Chan ChOutF)) (chans : List Chan) (amps : List ℚ),
+      s.prepareForOutputting = .ok P ∧ P.length = s.data.length ∧ s.channels = .ok chans ∧
+      pkg.amplitudes = padAmplitudes amps ∧ amps.length = chans.length ∧
+      (∀ i (hi : i < chans.length) (hi' : i < amps.length), s.specNum (keyOf chans[i] "amplitude") = some amps[i]) ∧
+      pkg.seqname = s.name ∧ pkg.flags = none ∧
+      pkg.wfms.length = chans.length ∧ (∀ col ∈ pkg.wfms, col.length = P.length) ∧
+      pkg.trig_waits.length = P.length ∧ pkg.nreps.length = P.length ∧ pkg.event_jumps.length = P.length ∧
+      pkg.event_jump_to.length = P.length ∧ pkg.go_to.length = P.length ∧
+      (∀ i (hi : i < chans.length) p (hpp : p < P.length), ∃ c w m1 m2,
+          lookupCh P[p] chans[i] = .ok c ∧ chWave c = .ok w ∧ chMarker c 1 = .ok m1 ∧ chMarker c 2 = .ok m2 ∧
+          (pkg.wfms[i]?).bind (·[p]?) = some (w, m1, m2)) ∧
+      (∀ p (hpp : p < P.length), ∃ q, Dict.get? s.sequencing ((p + 1 : ℕ) : ℤ) = some q ∧
+          seqxSeqCheck q (P.length : ℤ) = .ok () ∧
+          pkg.trig_waits[p]? = some q.twait ∧ pkg.nreps[p]? = some q.nrep ∧ pkg.event_jumps[p]? = some q.jump_input ∧
+          pkg.event_jump_to[p]? = some q.jump_target ∧ pkg.go_to[p]? = some q.goto) := by
+  obtain ⟨P, chans, amps, hP, hch, hamps, _, hcase⟩ := G3.seqx_inv s d h
+  rcases hcase with ⟨er, _, _, _, hnone⟩ | ⟨rows, hrows, _, hpkg⟩
+  · rw [hnone] at hp; cases hp
+  · rw [hpkg] at hp
+    simp only [Option.some.injEq] at hp
+    subst hp
+    obtain ⟨_, _, hlen, _, _⟩ := G3.prepare_cells s P hP
+    obtain ⟨hla, hspec⟩ := G3.amps_spec s chans amps hamps
+    have hl := mapM_ok_length _ _ _ hrows
+    simp only [List.length_zip, List.length_range, Nat.min_self] at hl
+    have hall : ∀ r ∈ rows.map (·.1), r.length = chans.length := by
+      intro r hr
+      obtain ⟨x, hx, rfl⟩ := List.mem_map.mp hr
+      obtain ⟨y, hy, hxy⟩ := G3.mapM_result_mem _ _ _ hrows x hx
+      exact mapM_ok_length _ _ _ (G3.seqxRow_inv s chans _ y x hxy).1
+    refine ⟨P, chans, amps, hP, hlen, hch, rfl, hla, hspec, rfl, rfl, ?_, ?_, ?_, ?_, ?_, ?_, ?_, ?_, ?_⟩
+    · simp [seqxPackage, G3.transpose_length]
+    · intro col hc
+      have := G3.transpose_row_length _ _ hall col hc
+      simp only [List.length_map] at this
+      omega
+    · simp [seqxPackage, hl]
+    · simp [seqxPackage, hl]
+    · simp [seqxPackage, hl]
+    · simp [seqxPackage, hl]
+    · simp [seqxPackage, hl]
+    · intro i hi p hpp
+      have hz : p < (P.zip (List.range P.length)).length := by simp; exact hpp
+      have hr' : p < rows.length := by omega
+      have erow := mapM_ok_getElem _ _ _ hrows p hz hr'
+      simp only [List.getElem_zip, List.getElem_range] at erow
+      obtain ⟨hrow, _, _⟩ := G3.seqxRow_inv s chans _ _ _ erow
+      have l1 := mapM_ok_length _ _ _ hrow
+      have e1 := mapM_ok_getElem _ _ _ hrow i hi (by omega)
+      simp only at e1
+      unfold seqxCell at e1
+      split at e1
+      · cases e1
+      · rename_i c hc
+        split at e1
+        · cases e1
+        · rename_i w hw
+          split at e1
+          · cases e1
+          · rename_i m1 hm1
+            split at e1
+            · cases e1
+            · rename_i m2 hm2
+              simp only [Except.ok.injEq] at e1
+              refine ⟨c, w, m1, m2, hc, hw, hm1, hm2, ?_⟩
+              have := C14.transpose_getElem? chans.length (rows.map (·.1)) hall i hi p (by simpa using hr')
+              show ((seqxPackage s chans.length amps rows).wfms[i]?).bind (·[p]?) = _
+              simp only [seqxPackage]
+              rw [this]
+              simp [List.getElem?_eq_getElem hr', List.getElem?_eq_getElem (show i < (rows[p]).1.length by omega), ← e1]
+    · intro p hpp
+      have hz : p < (P.zip (List.range P.length)).length := by simp; exact hpp
+      have hr' : p < rows.length := by omega
+      have erow := mapM_ok_getElem _ _ _ hrows p hz hr'
+      simp only [List.getElem_zip, List.getElem_range] at erow
+      obtain ⟨_, hq, hchk⟩ := G3.seqxRow_inv s chans _ _ _ erow
+      refine ⟨(rows[p]).2, hq, hchk, ?_⟩
+      simp [seqxPackage, List.getElem?_eq_getElem hr']
+
+/-! ### success implies the AWG70000A limits -/
+
+/-- ValueError clause: the SEQX voltage check either passes or raises ValueError, nothing else -/
+theorem seqxRangeCheck_total (xs : List ℚ) (a : ℚ) :
+    seqxRangeCheck xs a = .ok () ∨ seqxRangeCheck xs a = .error .value := by
+  unfold seqxRangeCheck
+  split
+  · exact .inr rfl
+  · split
+    · exact .inr rfl
+    · exact .inl rfl
+
+/-- what passing the SEQX phase-1 check means for one waveform -/
+theorem seqxCheckWave_inv (pos : ℕ) (el : Dict Chan ChOutF) (x : Chan × ℚ) (obs : List RangeOb)
+    (h : seqxCheckWave pos el x = .ok obs) :
+    ∃ c w, lookupCh el x.1 = .ok c ∧ chWave c = .ok w ∧ 2400 ≤ w.len ∧
+      (∀ xs, w.eval? = some xs → seqxRangeCheck xs x.2 = .ok () ∧ obs = []) ∧
+      (w.eval? = none → obs = [⟨pos, x.1, w, -x.2 / 2, x.2 / 2⟩]) := by
+  unfold seqxCheckWave at h
+  split at h
+  · cases h
+  · rename_i c hc
+    split at h
+    · cases h
+    · rename_i w hw
+      split at h
+      · cases h
+      · rename_i hlen
+        have hl : 2400 ≤ w.len := by
+          have := (len_ok_iff (w.len : ℤ)).mp (by simpa using hlen)
+          exact_mod_cast this
+        refine ⟨c, w, hc, hw, hl, ?_⟩
+        split at h
+        · rename_i xs hxs
+          cases hr : seqxRangeCheck xs x.2 with
+          | error e => rw [hr] at h; simp [Except.map] at h
+          | ok u =>
+            rw [hr] at h
+            simp only [Except.map, Except.ok.injEq] at h
+            refine ⟨?_, ?_⟩
+            · intro xs' hxs'
+              rw [hxs] at hxs'
+              cases hxs'
+              exact ⟨hr, h.symm⟩
+            · intro hn; rw [hn] at hxs; cases hxs
+        · rename_i hnone
+          simp only [Except.ok.injEq] at h
+          refine ⟨?_, ?_⟩
+          · intro xs hxs; rw [hnone] at hxs; cases hxs
+          · intro _; exact h.symm
+
+/-- every (position, channel) cell of a passed phase 1 passed `seqxCheckWave` -/
+theorem seqxPhase1_cell (P : List (Dict Chan ChOutF)) (chans : List Chan) (amps : List ℚ) (obs : List RangeOb)
+    (h : seqxPhase1 P chans amps = .ok obs) (hla : amps.length = chans.length)
+    (p : ℕ) (hp : p < P.length) (i : ℕ) (hi : i < chans.length) (hi' : i < amps.length) :
+    ∃ ob, seqxCheckWave (p + 1) P[p] (chans[i], amps[i]) = .ok ob := by
+  unfold seqxPhase1 at h
+  cases hm : (P.zip (List.range P.length)).mapM (fun p =>
+      ((chans.zip amps).mapM (seqxCheckWave (p.2 + 1) p.1)).map List.flatten) with
+  | error e => rw [hm] at h; simp [Except.map] at h
+  | ok rows =>
+    have hz : p < (P.zip (List.range P.length)).length := by simp; exact hp
+    have hl := mapM_ok_length _ _ _ hm
+    have er := mapM_ok_getElem _ _ _ hm p hz (by omega)
+    simp only [List.getElem_zip, List.getElem_range] at er
+    cases hin : (chans.zip amps).mapM (seqxCheckWave (p + 1) P[p]) with
+    | error e => rw [hin] at er; simp [Except.map] at er
+    | ok r =>
+      have hzi : i < (chans.zip amps).length := by simp; omega
+      have hl2 := mapM_ok_length _ _ _ hin
+      have ei := mapM_ok_getElem _ _ _ hin i hzi (by omega)
+      simp only [List.getElem_zip] at ei
+      exact ⟨_, ei⟩
+
+/-- **a returning `outputForSEQXFile` implies the limits**: with `chans` = `Sequence.channels`,
+    every channel has a numeric amplitude `a`, and the forged waveform of every channel at every
+    position has at least 2400 points and — when the model can evaluate it — exactly that many
+    samples, all within `[-a/2, a/2]` -/
+theorem seqx_ok_limits (s : Sequence) (d : Deferred SEQXPkg) (h : s.outputForSEQXFile = .ok d) :
+    ∃ (P : List (Dict Chan ChOutF)) (chans : List Chan),
+      s.prepareForOutputting = .ok P ∧ s.channels = .ok chans ∧
+      ∀ i (hi : i < chans.length) p (hpp : p < P.length), ∃ a c w,
+        s.specNum (keyOf chans[i] "amplitude") = some a ∧ lookupCh P[p] chans[i] = .ok c ∧ chWave c = .ok w ∧
+        2400 ≤ w.len ∧
+        ∀ xs, w.eval? = some xs → xs.length = w.len ∧ ∀ x ∈ xs, -a / 2 ≤ x ∧ x ≤ a / 2 := by
+  obtain ⟨P, chans, amps, hP, hch, hamps, hph1, _⟩ := G3.seqx_inv s d h
+  obtain ⟨hla, hspec⟩ := G3.amps_spec s chans amps hamps
+  refine ⟨P, chans, hP, hch, ?_⟩
+  intro i hi p hpp
+  have hi' : i < amps.length := by omega
+  obtain ⟨ob, hob⟩ := seqxPhase1_cell P chans amps _ hph1 hla p hpp i hi hi'
+  obtain ⟨c, w, hc, hw, hlen, hev, _⟩ := seqxCheckWave_inv _ _ _ _ hob
+  refine ⟨amps[i], c, w, hspec i hi hi', hc, hw, hlen, ?_⟩
+  intro xs hxs
+  have hxl := G3.wave_eval_length w xs hxs
+  refine ⟨hxl, ?_⟩
+  have hne : xs ≠ [] := by
+    intro he
+    rw [he] at hxl
+    simp at hxl
+    omega
+  exact (range_check_iff xs amps[i] hne).1.mp (hev xs hxs).1
+
+/-- ... in particular every waveform of a delivered package: `wfms[i][p] = (w, m1, m2)` has
+    `w.len ≥ 2400` points and evaluable samples within ± amplitude/2 of channel `chans[i]` -/
+theorem seqx_delivered_limits (s : Sequence) (d : Deferred SEQXPkg) (pkg : SEQXPkg)
+    (h : s.outputForSEQXFile = .ok d) (hp : d.pkg = some pkg) (chans : List Chan) (hch : s.channels = .ok chans)
+    (i p : ℕ) (cell : Wave × List ℚ × List ℚ) (hw : (pkg.wfms[i]?).bind (·[p]?) = some cell) :
+    ∃ (hi : i < chans.length) (a : ℚ), s.specNum (keyOf chans[i] "amplitude") = some a ∧
+      2400 ≤ cell.1.len ∧ ∀ xs, cell.1.eval? = some xs → xs.length = cell.1.len ∧ ∀ x ∈ xs, -a / 2 ≤ x ∧ x ≤ a / 2 := by
+  obtain ⟨P, chans', amps, hP, _, hch', _, _, _, _, _, hwl, hcol, _, _, _, _, _, hcell, _⟩ :=
+    seqx_content_channels s d pkg h hp
+  rw [hch] at hch'
+  simp only [Except.ok.injEq] at hch'
+  subst hch'
+  obtain ⟨P', chans'', hP', hch'', hlim⟩ := seqx_ok_limits s d h
+  rw [hP] at hP'
+  have hPP := Except.ok.inj hP'
+  subst hPP
+  rw [hch] at hch''
+  simp only [Except.ok.injEq] at hch''
+  subst hch''
+  have hi : i < pkg.wfms.length := by
+    by_contra hn
+    have : pkg.wfms[i]? = none := by simp; omega
+    rw [this] at hw; cases hw
+  have hcolp : p < (pkg.wfms[i]).length := by
+    by_contra hn
+    rw [List.getElem?_eq_getElem hi] at hw
+    simp only [Option.bind_some] at hw
+    have : (pkg.wfms[i])[p]? = none := by simp; omega
+    rw [this] at hw; cases hw
+  have hpp : p < P.length := by rw [← hcol _ (List.getElem_mem hi)]; exact hcolp
+  have hic : i < chans.length := by omega
+  obtain ⟨c, w, m1, m2, hc, hcw, _, _, hcellw⟩ := hcell i hic p hpp
+  rw [hw] at hcellw
+  simp only [Option.some.injEq] at hcellw
+  subst hcellw
+  obtain ⟨a, c', w', ha, hc', hw', hlen, hxs⟩ := hlim i hic p hpp
+  rw [hc] at hc'
+  have hcc := Except.ok.inj hc'
+  subst hcc
+  rw [hcw] at hw'
+  have hww := Except.ok.inj hw'
+  subst hww
+  exact ⟨hic, a, ha, hlen, hxs⟩
+
+/-! ### the error direction, at the public operation -/
+
+/-- ValueError clause, one waveform: the phase-1 check of `outputForSEQXFile` either accepts the waveform or
+    raises ValueError; it raises for fewer than 2400 points or an evaluable waveform failing the voltage
+    check, and accepts a long enough waveform that passes it or cannot be evaluated -/
+theorem seqxCheckWave_total (pos : ℕ) (el : Dict Chan ChOutF) (x : Chan × ℚ) (c : ChOutF) (w : Wave)
+    (hc : lookupCh el x.1 = .ok c) (hw : chWave c = .ok w) :
+    ((∃ y, seqxCheckWave pos el x = .ok y) ∨ seqxCheckWave pos el x = .error .value) ∧
+    (w.len < 2400 → seqxCheckWave pos el x = .error .value) ∧
+    (∀ xs, w.eval? = some xs → seqxRangeCheck xs x.2 ≠ .ok () → seqxCheckWave pos el x = .error .value) ∧
+    (2400 ≤ w.len → (∀ xs, w.eval? = some xs → seqxRangeCheck xs x.2 = .ok ()) → ∃ y, seqxCheckWave pos el x = .ok y) := by
+  unfold seqxCheckWave
+  simp only [hc, hw]
+  by_cases hlen : w.len < 2400
+  · have : Gen.seqxLenBad (w.len : ℤ) = true := by
+      simp only [Gen.seqxLenBad, decide_eq_true_eq]; omega
+    simp only [this, if_true]
+    refine ⟨?_, ?_, ?_, ?_⟩
+    · simp
+    · simp
+    · simp
+    · intro h; omega
+  · have : Gen.seqxLenBad (w.len : ℤ) = false := by
+      simp only [Gen.seqxLenBad, decide_eq_false_iff_not]; omega
+    simp only [this, Bool.false_eq_true, if_false]
+    cases hxs : w.eval? with
+    | none => simp [hlen]
+    | some xs =>
+      simp only
+      rcases seqxRangeCheck_total xs x.2 with hr | hr
+      · simp [hr, Except.map, hlen]
+      · simp [hr, Except.map, hlen]
+
+/-- helper for the ValueError clause: mapping over a result keeps "returns or raises `e`" -/
+theorem except_map_ok_or_error {α β : Type} (x : Except Err α) (f : α → β) (e : Err)
+    (h : (∃ y, x = .ok y) ∨ x = .error e) : (∃ y, x.map f = .ok y) ∨ x.map f = .error e := by
+  rcases h with ⟨y, rfl⟩ | rfl
+  · exact .inl ⟨f y, rfl⟩
+  · exact .inr rfl
+
+/-- **a waveform that is too short or leaves ± amplitude/2: ValueError** — for a sequence that
+    passed `_prepareForOutputting`, with a numeric amplitude on every channel and a waveform on
+    every looked-up channel, one waveform with fewer than 2400 points, or one evaluable waveform
+    with a sample outside `[-amplitude/2, amplitude/2]`, makes `outputForSEQXFile` (and the flags
+    variant) raise ValueError -/
+theorem seqx_value_error (s : Sequence) (P : List (Dict Chan ChOutF)) (chans : List Chan)
+    (hP : s.prepareForOutputting = .ok P) (hch : s.channels = .ok chans)
+    (hnum : ∀ ch ∈ chans, ∃ a, s.specNum (keyOf ch "amplitude") = some a)
+    (hwave : ∀ el ∈ P, ∀ ch ∈ chans, ∀ c, lookupCh el ch = .ok c → ∃ w, chWave c = .ok w)
+    (p : ℕ) (hp : p < P.length) (ch : Chan) (hm : ch ∈ chans) (c : ChOutF) (w : Wave) (a : ℚ)
+    (hc : lookupCh P[p] ch = .ok c) (hw : chWave c = .ok w) (ha : s.specNum (keyOf ch "amplitude") = some a)
+    (hbad : w.len < 2400 ∨ ∃ xs x, w.eval? = some xs ∧ x ∈ xs ∧ (x < -a / 2 ∨ a / 2 < x)) :
+    s.outputForSEQXFile = .error .value := by
+  obtain ⟨hcc, en, hen, hchans⟩ := G3.channels_inv s chans hch
+  obtain ⟨chans', hch', _, _, hcells⟩ := G3.prepare_cells s P hP
+  rw [hch] at hch'
+  simp only [Except.ok.injEq] at hch'
+  subst hch'
+  unfold outputForSEQXFile
+  simp only [hP, hen, hchans]
+  split
+  · rename_i e he
+    exfalso
+    obtain ⟨ch', hm', hf⟩ := G3.mapM_error_mem _ _ _ he
+    obtain ⟨a', ha'⟩ := hnum ch' hm'
+    simp only [ha'] at hf
+    cases hf
+  · rename_i amps hamps
+    obtain ⟨hla, hspec⟩ := G3.amps_spec s chans amps hamps
+    have hcell : ∀ p' (hp' : p' < P.length), ∀ x ∈ chans.zip amps,
+        (∃ y, seqxCheckWave (p' + 1) P[p'] x = .ok y) ∨ seqxCheckWave (p' + 1) P[p'] x = .error .value := by
+      intro p' hp' x hx
+      have hx1 : x.1 ∈ chans := (List.of_mem_zip hx).1
+      obtain ⟨e, _, hl⟩ := hcells p' hp'
+      obtain ⟨ent, c', _, hc', _⟩ := hl x.1 hx1
+      obtain ⟨w', hw'⟩ := hwave _ (List.getElem_mem hp') x.1 hx1 c' hc'
+      exact (seqxCheckWave_total (p' + 1) P[p'] x c' w' hc' hw').1
+    have hbadcell : ∃ x ∈ chans.zip amps, seqxCheckWave (p + 1) P[p] x = .error .value := by
+      obtain ⟨i, hi, rfl⟩ := List.getElem_of_mem hm
+      have hi' : i < amps.length := by omega
+      have hai : amps[i] = a := by
+        have := hspec i hi hi'
+        rw [ha] at this
+        exact (Option.some.inj this).symm
+      refine ⟨(chans[i], amps[i]), ?_, ?_⟩
+      · have hz : i < (chans.zip amps).length := by simp; omega
+        have := List.getElem_mem hz
+        simpa using this
+      · have htot := seqxCheckWave_total (p + 1) P[p] (chans[i], amps[i]) c w hc hw
+        rcases hbad with hlen | ⟨xs, x, hxs, hx, hout⟩
+        · exact htot.2.1 hlen
+        · apply htot.2.2.1 xs hxs
+          intro hok
+          have hne : xs ≠ [] := by intro he; rw [he] at hx; simp at hx
+          have := ((range_check_iff xs amps[i] hne).1.mp hok) x hx
+          rw [hai] at this
+          rcases hout with h1 | h1 <;> linarith [this.1, this.2]
+    have hph : seqxPhase1 P chans amps = .error .value := by
+      unfold seqxPhase1
+      have : (P.zip (List.range P.length)).mapM (fun p =>
+          ((chans.zip amps).mapM (seqxCheckWave (p.2 + 1) p.1)).map List.flatten) = .error .value := by
+        apply G3.mapM_error_of
+        · intro x hx'
+          obtain ⟨p', hp', rfl⟩ := G3.mem_zip_range P x hx'
+          exact except_map_ok_or_error _ _ _ (G3.mapM_ok_or_error _ _ _ (hcell p' hp'))
+        · refine ⟨(P[p], p), G3.zip_range_mem P p hp, ?_⟩
+          have := G3.mapM_error_of _ _ _ (hcell p hp) hbadcell
+          simp only [this, Except.map]
+      rw [this]; rfl
+    simp only [hph]
+
+/-- the flag collection of the flags variant never fails on a prepared sequence -/
+theorem flags_collect_ok (s : Sequence) (P : List (Dict Chan ChOutF)) (chans : List Chan)
+    (hP : s.prepareForOutputting = .ok P) (hch : s.channels = .ok chans) :
+    ∃ flags, chans.mapM (fun ch => P.mapM (fun el => seqxFlagCell el ch)) = .ok flags := by
+  obtain ⟨chans', hch', _, _, hcells⟩ := G3.prepare_cells s P hP
+  rw [hch] at hch'
+  simp only [Except.ok.injEq] at hch'
+  subst hch'
+  apply G3.mapM_ok_of_forall_ex
+  intro ch hm
+  apply G3.mapM_ok_of_forall_ex
+  intro el hel
+  obtain ⟨p, hp, rfl⟩ := List.getElem_of_mem hel
+  obtain ⟨e, _, hl⟩ := hcells p hp
+  obtain ⟨ent, c, _, hc, _⟩ := hl ch hm
+  exact ⟨(chFlags c).getD [0, 0, 0, 0], by simp only [seqxFlagCell, hc]⟩
+
+/-- **the flags variant raises exactly what `outputForSEQXFile` raises** (too short, out of range,
+    bad sequencing, missing settings, inconsistent sequence) -/
+theorem seqxFlags_error_of_seqx (s : Sequence) (e : Err) (h : s.outputForSEQXFile = .error e) :
+    s.outputForSEQXFileWithFlags = .error e := by
+  unfold outputForSEQXFileWithFlags
+  cases hP : s.prepareForOutputting with
+  | error e' =>
+    simp only
+    unfold outputForSEQXFile at h
+    rw [hP] at h
+    exact h
+  | ok P =>
+    simp only
+    obtain ⟨chans, hch, _⟩ := G3.prepare_cells s P hP
+    obtain ⟨hcc, en, hen, hchans⟩ := G3.channels_inv s chans hch
+    obtain ⟨flags, hflags⟩ := flags_collect_ok s P chans hP hch
+    simp only [hen, hchans, hflags, h]
+
+/-- **the flags variant returns exactly when `outputForSEQXFile` does**, with the same obligations
+    and pending exception, and the same package plus the flags -/
+theorem seqxFlags_ok_of_seqx (s : Sequence) (d0 : Deferred SEQXPkg) (h : s.outputForSEQXFile = .ok d0) :
+    ∃ flags, s.outputForSEQXFileWithFlags =
+      .ok { d0 with pkg := d0.pkg.map (fun p => { p with flags := some flags }) } := by
+  obtain ⟨P, chans, amps, hP, hch, _⟩ := G3.seqx_inv s d0 h
+  obtain ⟨hcc, en, hen, hchans⟩ := G3.channels_inv s chans hch
+  obtain ⟨flags, hflags⟩ := flags_collect_ok s P chans hP hch
+  refine ⟨flags, ?_⟩
+  unfold outputForSEQXFileWithFlags
+  simp only [hP, hen, hchans, hflags, h]
+
+/-- SequencingError clause, one position: with waveform and both markers on every channel and a
+    sequencing entry `q`, phase 2 of `outputForSEQXFile` returns the row when `q` passes the AWG70000A
+    checks and raises SequencingError otherwise -/
+theorem seqxRow_total (s : Sequence) (chans : List Chan) (N : ℤ) (el : Dict Chan ChOutF) (p : ℕ) (q : SeqSet)
+    (hq : Dict.get? s.sequencing ((p + 1 : ℕ) : ℤ) = some q)
+    (hmk : ∀ ch ∈ chans, ∃ c w m1 m2, lookupCh el ch = .ok c ∧ chWave c = .ok w ∧ chMarker c 1 = .ok m1 ∧ chMarker c 2 = .ok m2) :
+    (seqxSeqCheck q N = .ok () → ∃ y, seqxRow s chans N (el, p) = .ok y) ∧
+    (seqxSeqCheck q N ≠ .ok () → seqxRow s chans N (el, p) = .error .sequencing) := by
+  obtain ⟨row, hrow⟩ := G3.mapM_ok_of_forall_ex (seqxCell el) chans (by
+    intro ch hm
+    obtain ⟨c, w, m1, m2, hc, hw, h1, h2⟩ := hmk ch hm
+    exact ⟨(w, m1, m2), by simp only [seqxCell, hc, hw, h1, h2]⟩)
+  unfold seqxRow
+  simp only [hrow, hq]
+  constructor
+  · intro hok; rw [hok]; exact ⟨_, rfl⟩
+  · intro hbad
+    have := (seq_check_iff q N).2 hbad
+    rw [this]
+
+/-- no obligations are deferred when every waveform is evaluable -/
+theorem seqxPhase1_obs_nil (P : List (Dict Chan ChOutF)) (chans : List Chan) (amps : List ℚ) (obs : List RangeOb)
+    (h : seqxPhase1 P chans amps = .ok obs)
+    (hev : ∀ el ∈ P, ∀ ch ∈ chans, ∀ c w, lookupCh el ch = .ok c → chWave c = .ok w → w.eval? ≠ none) : obs = [] := by
+  unfold seqxPhase1 at h
+  cases hm : (P.zip (List.range P.length)).mapM (fun p =>
+      ((chans.zip amps).mapM (seqxCheckWave (p.2 + 1) p.1)).map List.flatten) with
+  | error e => rw [hm] at h; simp [Except.map] at h
+  | ok rows =>
+    rw [hm] at h
+    simp only [Except.map, Except.ok.injEq] at h
+    subst h
+    simp only [List.flatten_eq_nil_iff]
+    intro row hrow
+    obtain ⟨x, hx, hxr⟩ := G3.mapM_result_mem _ _ _ hm row hrow
+    obtain ⟨p, hp, rfl⟩ := G3.mem_zip_range P x hx
+    simp only at hxr
+    cases hin : (chans.zip amps).mapM (seqxCheckWave (p + 1) P[p]) with
+    | error e => rw [hin] at hxr; simp [Except.map] at hxr
+    | ok r =>
+      rw [hin] at hxr
+      simp only [Except.map, Except.ok.injEq] at hxr
+      subst hxr
+      simp only [List.flatten_eq_nil_iff]
+      intro ob hob
+      obtain ⟨y, hy, hyo⟩ := G3.mapM_result_mem _ _ _ hin ob hob
+      obtain ⟨c, w, hc, hw, _, hsome, _⟩ := seqxCheckWave_inv _ _ _ _ hyo
+      cases hxs : w.eval? with
+      | none => exact absurd hxs (hev _ (List.getElem_mem hp) y.1 (List.of_mem_zip hy).1 c w hc hw)
+      | some xs => exact (hsome xs hxs).2
+
+/-- **a sequencing setting outside the instrument ranges: SequencingError** — for a sequence that
+    passed `_prepareForOutputting`, with numeric amplitudes, waveform and markers on every channel,
+    every waveform ≥ 2400 points and every evaluable waveform within ± amplitude/2, one position
+    whose sequencing entry violates (wait, event input ∈ 0..3, repetitions ∈ 0..16383, jump target
+    ∈ -1..N, goto ∈ 0..N) makes `outputForSEQXFile` raise SequencingError: at once when every
+    waveform is evaluable in the model; otherwise the result says "ValueError if a deferred range
+    obligation fails, else SequencingError" — in no case is a package returned -/
+theorem seqx_sequencing_error (s : Sequence) (P : List (Dict Chan ChOutF)) (chans : List Chan)
+    (hP : s.prepareForOutputting = .ok P) (hch : s.channels = .ok chans)
+    (hnum : ∀ ch ∈ chans, ∃ a, s.specNum (keyOf ch "amplitude") = some a)
+    (hcellsok : C14.CellsOk P chans)
+    (hlim : ∀ el ∈ P, ∀ ch ∈ chans, ∀ c w a, lookupCh el ch = .ok c → chWave c = .ok w →
+      s.specNum (keyOf ch "amplitude") = some a →
+      2400 ≤ w.len ∧ ∀ xs, w.eval? = some xs → ∀ x ∈ xs, -a / 2 ≤ x ∧ x ≤ a / 2)
+    (p : ℕ) (hp : p < P.length) (q : SeqSet) (hq : Dict.get? s.sequencing ((p + 1 : ℕ) : ℤ) = some q)
+    (hbad : ¬ ((0 ≤ q.twait ∧ q.twait ≤ 3) ∧ (0 ≤ q.jump_input ∧ q.jump_input ≤ 3) ∧ (0 ≤ q.nrep ∧ q.nrep ≤ 16383) ∧
+      (-1 ≤ q.jump_target ∧ q.jump_target ≤ (P.length : ℤ)) ∧ (0 ≤ q.goto ∧ q.goto ≤ (P.length : ℤ)))) :
+    (s.outputForSEQXFile = .error .sequencing ∨
+      ∃ d, s.outputForSEQXFile = .ok d ∧ d.obligations ≠ [] ∧ d.thenErr = some .sequencing ∧ d.pkg = none) ∧
+    ((∀ el ∈ P, ∀ ch ∈ chans, ∀ c w, lookupCh el ch = .ok c → chWave c = .ok w → w.eval? ≠ none) →
+      s.outputForSEQXFile = .error .sequencing) := by
+  obtain ⟨hcc, en, hen, hchans⟩ := G3.channels_inv s chans hch
+  obtain ⟨chans', hch', hlen, _, hcells⟩ := G3.prepare_cells s P hP
+  rw [hch] at hch'
+  simp only [Except.ok.injEq] at hch'
+  subst hch'
+  have hlook : ∀ p' (hp' : p' < P.length), ∀ ch' ∈ chans, ∃ c', lookupCh P[p'] ch' = .ok c' := by
+    intro p' hp' ch' hm'
+    obtain ⟨e, _, hl⟩ := hcells p' hp'
+    obtain ⟨ent, c', _, hc', _⟩ := hl ch' hm'
+    exact ⟨c', hc'⟩
+  have hmk : ∀ p' (hp' : p' < P.length), ∀ ch' ∈ chans, ∃ c w m1 m2,
+      lookupCh P[p'] ch' = .ok c ∧ chWave c = .ok w ∧ chMarker c 1 = .ok m1 ∧ chMarker c 2 = .ok m2 := by
+    intro p' hp' ch' hm'
+    obtain ⟨c', hc'⟩ := hlook p' hp' ch' hm'
+    obtain ⟨⟨w, hw⟩, ⟨m1, h1⟩, ⟨m2, h2⟩⟩ := hcellsok _ (List.getElem_mem hp') ch' hm' c' hc'
+    exact ⟨c', w, m1, m2, hc', hw, h1, h2⟩
+  have hrows : (P.zip (List.range P.length)).mapM (seqxRow s chans (P.length : ℤ)) = .error .sequencing := by
+    apply G3.mapM_error_of
+    · intro x hx
+      obtain ⟨p', hp', rfl⟩ := G3.mem_zip_range P x hx
+      obtain ⟨q', hq'⟩ := G3.prepare_sequencing_lookup s P hP ((p' + 1 : ℕ) : ℤ) (by omega) (by omega)
+      have := seqxRow_total s chans (P.length : ℤ) P[p'] p' q' hq' (hmk p' hp')
+      by_cases hok : seqxSeqCheck q' (P.length : ℤ) = .ok ()
+      · exact .inl (this.1 hok)
+      · exact .inr (this.2 hok)
+    · refine ⟨(P[p], p), G3.zip_range_mem P p hp, ?_⟩
+      apply (seqxRow_total s chans (P.length : ℤ) P[p] p q hq (hmk p hp)).2
+      intro hok
+      exact hbad ((seq_check_iff q _).1.mp hok)
+  unfold outputForSEQXFile
+  simp only [hP, hen, hchans]
+  split
+  · rename_i e he
+    exfalso
+    obtain ⟨ch', hm', hf⟩ := G3.mapM_error_mem _ _ _ he
+    obtain ⟨a', ha'⟩ := hnum ch' hm'
+    simp only [ha'] at hf
+    cases hf
+  · rename_i amps hamps
+    obtain ⟨hla, hspec⟩ := G3.amps_spec s chans amps hamps
+    -- phase 1 passes
+    have hph : ∃ obs, seqxPhase1 P chans amps = .ok obs := by
+      unfold seqxPhase1
+      obtain ⟨rows, hrowsok⟩ := G3.mapM_ok_of_forall_ex (fun (p : Dict Chan ChOutF × ℕ) =>
+          ((chans.zip amps).mapM (seqxCheckWave (p.2 + 1) p.1)).map List.flatten) (P.zip (List.range P.length)) (by
+        intro x hx
+        obtain ⟨p', hp', rfl⟩ := G3.mem_zip_range P x hx
+        obtain ⟨r, hr⟩ := G3.mapM_ok_of_forall_ex (seqxCheckWave (p' + 1) P[p']) (chans.zip amps) (by
+          intro y hy
+          obtain ⟨i, hi, rfl⟩ := List.getElem_of_mem hy
+          have hic : i < chans.length := by simp at hi; omega
+          have hia : i < amps.length := by simp at hi; omega
+          simp only [List.getElem_zip]
+          obtain ⟨c', w', _, _, hc', hw', _, _⟩ := hmk p' hp' chans[i] (List.getElem_mem hic)
+          obtain ⟨hl2400, hxs⟩ := hlim _ (List.getElem_mem hp') chans[i] (List.getElem_mem hic) c' w' amps[i] hc' hw'
+            (hspec i hic hia)
+          apply (seqxCheckWave_total (p' + 1) P[p'] (chans[i], amps[i]) c' w' hc' hw').2.2.2 hl2400
+          intro xs hev
+          have hxl := G3.wave_eval_length w' xs hev
+          have hne : xs ≠ [] := by
+            intro he; rw [he] at hxl; simp at hxl; omega
+          exact (range_check_iff xs amps[i] hne).1.mpr (hxs xs hev))
+        exact ⟨r.flatten, by simp only [hr, Except.map]⟩)
+      exact ⟨rows.flatten, by rw [hrowsok]; rfl⟩
+    obtain ⟨obs, hobs⟩ := hph
+    simp only [hobs, hrows]
+    constructor
+    · split
+      · exact .inl rfl
+      · rename_i hne
+        refine .inr ⟨_, rfl, ?_, rfl, rfl⟩
+        intro he
+        apply hne
+        simp only at he
+        simp [he]
+    · intro hev
+      have := seqxPhase1_obs_nil P chans amps obs hobs hev
+      subst this
+      simp
+
+/-! ### flags, end to end -/
+
+/-- an accepted flag token means an integer 0..4 -/
+theorem flagToken_le (v : Val) (n : ℕ) (h : flagToken? v = some n) : n ≤ 4 := by
+  have keyI : ∀ k ∈ Gen.flagAllowedInt, (((Gen.flagAliasInt.lookup k).map Int.toNat).all (fun n => decide (n ≤ 4))) = true := by
+    decide
+  have keyS : ∀ s ∈ Gen.flagAllowedStr, (((Gen.flagAliasStr.lookup s).map Int.toNat).all (fun n => decide (n ≤ 4))) = true := by
+    decide
+  unfold flagToken? at h
+  split at h
+  · rename_i q
+    split at h
+    · rename_i hq
+      have hm : q.num ∈ Gen.flagAllowedInt := by simpa using hq.2
+      have := keyI _ hm
+      rw [h] at this
+      simpa using this
+    · cases h
+  · rename_i s
+    split at h
+    · rename_i hs
+      have hm : s ∈ Gen.flagAllowedStr := by simpa using hs
+      have := keyS _ hm
+      rw [h] at this
+      simpa using this
+    · cases h
+  · cases h
+
+/-- **what an accepted `addFlags` stores**: the call is accepted exactly when the channel exists,
+    there are four tokens and every token is one of 0-4, '', 'H', 'L', 'T', 'P'; the channel then
+    holds four integers, each 0..4, the `k`-th being the meaning of the `k`-th token -/
+theorem addFlags_ok_spec (e : Element) (ch : Chan) (fl : List Val) (h : (e.addFlags ch fl).err = none) :
+    ∃ ent ints, Dict.get? e.chans ch = some ent ∧ fl.length = 4 ∧ fl.mapM flagToken? = some ints ∧
+      ints.length = 4 ∧ (∀ n ∈ ints, n ≤ 4) ∧
+      (∀ k (hk : k < fl.length) (hk' : k < ints.length), flagToken? fl[k] = some ints[k]) ∧
+      Dict.get? (e.addFlags ch fl).st.chans ch = some { ent with flags := some ints } := by
+  by_cases hl : fl.length = 4
+  · cases ht : fl.mapM flagToken? with
+    | none =>
+      have : Gen.flagsLenBad fl.length = false := by simp [Gen.flagsLenBad, hl]
+      simp [Element.addFlags, this, ht] at h
+    | some ints =>
+      cases hc : Dict.get? e.chans ch with
+      | none =>
+        have : Gen.flagsLenBad fl.length = false := by simp [Gen.flagsLenBad, hl]
+        simp [Element.addFlags, this, ht, hc] at h
+      | some ent =>
+        obtain ⟨l1, l2, l3⟩ := G3.optMapM_some _ _ _ ht
+        refine ⟨ent, ints, rfl, hl, rfl, by omega, ?_, l3, (flags_stored e ch fl ent ints hl ht hc).2⟩
+        intro n hn
+        obtain ⟨v, _, hv⟩ := l2 n hn
+        exact flagToken_le v n hv
+  · have := (flags_length e ch fl hl).1
+    rw [this] at h; cases h
+
+/-- **a bad flag token is rejected**: ValueError, and the element is unchanged -/
+theorem flags_bad_token (e : Element) (ch : Chan) (fl : List Val) (v : Val) (hv : v ∈ fl)
+    (hbad : flagToken? v = none) : (e.addFlags ch fl).err = some .value ∧ (e.addFlags ch fl).st = e := by
+  unfold Element.addFlags
+  split
+  · exact ⟨rfl, rfl⟩
+  · have : fl.mapM flagToken? = none := (G3.optMapM_none_iff _ _).mpr ⟨v, hv, hbad⟩
+    simp only [this]
+    exact ⟨trivial, trivial⟩
+
+/-- `addFlags` on a channel the element does not have: KeyError, element unchanged -/
+theorem flags_unknown_channel (e : Element) (ch : Chan) (fl : List Val) (ints : List ℕ) (hl : fl.length = 4)
+    (ht : fl.mapM flagToken? = some ints) (hc : Dict.get? e.chans ch = none) :
+    (e.addFlags ch fl).err = some .key ∧ (e.addFlags ch fl).st = e := by
+  unfold Element.addFlags
+  have : Gen.flagsLenBad fl.length = false := by simp [Gen.flagsLenBad, hl]
+  simp only [this, Bool.false_eq_true, if_false, ht, hc]
+  exact ⟨trivial, trivial⟩
+
+/-- **flags, end to end**: `outputForSEQXFileWithFlags` delivers, for channel `i` of
+    `Sequence.channels` and position `p + 1`, exactly the flags stored on that channel of the
+    element at that position (`[0, 0, 0, 0]` where none were stored) — delays and filter
+    compensation do not touch them; there is one list per channel with one entry per position -/
+theorem seqx_flags_end_to_end (s : Sequence) (d : Deferred SEQXPkg) (pkg : SEQXPkg)
+    (h : s.outputForSEQXFileWithFlags = .ok d) (hp : d.pkg = some pkg) :
+    ∃ (chans : List Chan) (flags : List (List (List ℕ))) (d0 : Deferred SEQXPkg) (pkg0 : SEQXPkg),
+      s.channels = .ok chans ∧ s.outputForSEQXFile = .ok d0 ∧ d0.pkg = some pkg0 ∧
+      pkg = { pkg0 with flags := some flags } ∧
+      flags.length = chans.length ∧ (∀ col ∈ flags, col.length = s.data.length) ∧
+      ∀ i (hi : i < chans.length) p (hpp : p < s.data.length), ∃ e ent,
+        Dict.get? s.data ((p + 1 : ℕ) : ℤ) = some (.el e) ∧ Dict.get? e.chans chans[i] = some ent ∧
+        (flags[i]?).bind (·[p]?) = some (ent.flags.getD [0, 0, 0, 0]) := by
+  unfold outputForSEQXFileWithFlags at h
+  cases hP : s.prepareForOutputting with
+  | error e => rw [hP] at h; cases h
+  | ok P =>
+    rw [hP] at h
+    simp only at h
+    obtain ⟨chans, hch, hlen, _, hcells⟩ := G3.prepare_cells s P hP
+    obtain ⟨hcc, en, hen, hchans⟩ := G3.channels_inv s chans hch
+    simp only [hen, hchans] at h
+    split at h
+    · cases h
+    · rename_i flags hflags
+      split at h
+      · cases h
+      · rename_i d0 hd0
+        cases h
+        simp only [Option.map_eq_some_iff] at hp
+        obtain ⟨pkg0, hpkg0, rfl⟩ := hp
+        have hl := mapM_ok_length _ _ _ hflags
+        refine ⟨chans, flags, d0, pkg0, hch, hd0, hpkg0, rfl, hl, ?_, ?_⟩
+        · intro col hcol
+          obtain ⟨ch, _, hc⟩ := G3.mapM_result_mem _ _ _ hflags col hcol
+          rw [← hlen]
+          exact mapM_ok_length _ _ _ hc
+        · intro i hi p hpp
+          have hpP : p < P.length := by omega
+          have hi' : i < flags.length := by omega
+          have er := mapM_ok_getElem _ _ _ hflags i hi hi'
+          have hrl := mapM_ok_length _ _ _ er
+          have hp' : p < (flags[i]).length := by omega
+          have ec := mapM_ok_getElem _ _ _ er p hpP hp'
+          obtain ⟨e, he, hl'⟩ := hcells p hpP
+          obtain ⟨ent, c, hent, hc, hfl, _⟩ := hl' chans[i] (List.getElem_mem hi)
+          refine ⟨e, ent, he, hent, ?_⟩
+          simp only [seqxFlagCell, hc, Except.ok.injEq] at ec
+          simp [List.getElem?_eq_getElem hi', List.getElem?_eq_getElem hp', ← ec, hfl]
+
+/-- **flags given to `addFlags` come out of the flags variant**: if the element at position `p + 1`
+    holds, on channel `chans[i]`, what an accepted `addFlags(chans[i], tokens)` stored, the package
+    reports for (channel `i`, position `p`) four integers, each 0..4, the `k`-th being the meaning
+    of the `k`-th token (aliases '', H, L, T, P = 0..4) -/
+theorem seqx_flags_of_addFlags (s : Sequence) (d : Deferred SEQXPkg) (pkg : SEQXPkg)
+    (h : s.outputForSEQXFileWithFlags = .ok d) (hp : d.pkg = some pkg)
+    (chans : List Chan) (hch : s.channels = .ok chans) (i : ℕ) (hi : i < chans.length) (p : ℕ) (hpp : p < s.data.length)
+    (e0 e : Element) (tokens : List Val) (hacc : (e0.addFlags chans[i] tokens).err = none)
+    (hst : e.chans = (e0.addFlags chans[i] tokens).st.chans)
+    (hpos : Dict.get? s.data ((p + 1 : ℕ) : ℤ) = some (.el e)) :
+    ∃ flags ints, pkg.flags = some flags ∧ (flags[i]?).bind (·[p]?) = some ints ∧ ints.length = 4 ∧
+      (∀ n ∈ ints, n ≤ 4) ∧ tokens.mapM flagToken? = some ints := by
+  obtain ⟨chans', flags, d0, pkg0, hch', _, _, hpkg, _, _, hcell⟩ := seqx_flags_end_to_end s d pkg h hp
+  rw [hch] at hch'
+  simp only [Except.ok.injEq] at hch'
+  subst hch'
+  obtain ⟨e', ent', he', hent', hfl⟩ := hcell i hi p hpp
+  rw [hpos] at he'
+  simp only [Option.some.injEq, Entry.el.injEq] at he'
+  subst he'
+  obtain ⟨ent, ints, _, _, htok, hlen, hle, _, hstored⟩ := addFlags_ok_spec e0 chans[i] tokens hacc
+  rw [hst, hstored] at hent'
+  simp only [Option.some.injEq] at hent'
+  subst hent'
+  refine ⟨flags, ints, by rw [hpkg], ?_, hlen, hle, htok⟩
+  simpa using hfl
+
+/-- **acceptance**: a sequence that passed `_prepareForOutputting`, with a numeric amplitude,
+    waveform and markers on every channel, every waveform ≥ 2400 points, every evaluable waveform
+    within ± amplitude/2 and every sequencing entry within the instrument ranges, gets its package
+    from `outputForSEQXFile` (no pending exception) — and, with the flags added, from
+    `outputForSEQXFileWithFlags` -/
+theorem seqx_accepts (s : Sequence) (P : List (Dict Chan ChOutF)) (chans : List Chan)
+    (hP : s.prepareForOutputting = .ok P) (hch : s.channels = .ok chans)
+    (hnum : ∀ ch ∈ chans, ∃ a, s.specNum (keyOf ch "amplitude") = some a)
+    (hcellsok : C14.CellsOk P chans)
+    (hlim : ∀ el ∈ P, ∀ ch ∈ chans, ∀ c w a, lookupCh el ch = .ok c → chWave c = .ok w →
+      s.specNum (keyOf ch "amplitude") = some a →
+      2400 ≤ w.len ∧ ∀ xs, w.eval? = some xs → ∀ x ∈ xs, -a / 2 ≤ x ∧ x ≤ a / 2)
+    (hseq : ∀ p, p < P.length → ∀ q, Dict.get? s.sequencing ((p + 1 : ℕ) : ℤ) = some q →
+      (0 ≤ q.twait ∧ q.twait ≤ 3) ∧ (0 ≤ q.jump_input ∧ q.jump_input ≤ 3) ∧ (0 ≤ q.nrep ∧ q.nrep ≤ 16383) ∧
+      (-1 ≤ q.jump_target ∧ q.jump_target ≤ (P.length : ℤ)) ∧ (0 ≤ q.goto ∧ q.goto ≤ (P.length : ℤ))) :
+    (∃ d pkg, s.outputForSEQXFile = .ok d ∧ d.thenErr = none ∧ d.pkg = some pkg) ∧
+    (∃ d pkg, s.outputForSEQXFileWithFlags = .ok d ∧ d.thenErr = none ∧ d.pkg = some pkg) := by
+  have main : ∃ d pkg, s.outputForSEQXFile = .ok d ∧ d.thenErr = none ∧ d.pkg = some pkg := by
+    obtain ⟨hcc, en, hen, hchans⟩ := G3.channels_inv s chans hch
+    obtain ⟨chans', hch', hlen, _, hcells⟩ := G3.prepare_cells s P hP
+    rw [hch] at hch'
+    simp only [Except.ok.injEq] at hch'
+    subst hch'
+    have hmk : ∀ p' (hp' : p' < P.length), ∀ ch' ∈ chans, ∃ c w m1 m2,
+        lookupCh P[p'] ch' = .ok c ∧ chWave c = .ok w ∧ chMarker c 1 = .ok m1 ∧ chMarker c 2 = .ok m2 := by
+      intro p' hp' ch' hm'
+      obtain ⟨e, _, hl⟩ := hcells p' hp'
+      obtain ⟨ent, c', _, hc', _⟩ := hl ch' hm'
+      obtain ⟨⟨w, hw⟩, ⟨m1, h1⟩, ⟨m2, h2⟩⟩ := hcellsok _ (List.getElem_mem hp') ch' hm' c' hc'
+      exact ⟨c', w, m1, m2, hc', hw, h1, h2⟩
+    obtain ⟨rows, hrows⟩ := G3.mapM_ok_of_forall_ex (seqxRow s chans (P.length : ℤ)) (P.zip (List.range P.length)) (by
+      intro x hx
+      obtain ⟨p', hp', rfl⟩ := G3.mem_zip_range P x hx
+      obtain ⟨q', hq'⟩ := G3.prepare_sequencing_lookup s P hP ((p' + 1 : ℕ) : ℤ) (by omega) (by omega)
+      apply (seqxRow_total s chans (P.length : ℤ) P[p'] p' q' hq' (hmk p' hp')).1
+      exact (seq_check_iff q' _).1.mpr (hseq p' hp' q' hq'))
+    unfold outputForSEQXFile
+    simp only [hP, hen, hchans]
+    split
+    · rename_i e he
+      exfalso
+      obtain ⟨ch', hm', hf⟩ := G3.mapM_error_mem _ _ _ he
+      obtain ⟨a', ha'⟩ := hnum ch' hm'
+      simp only [ha'] at hf
+      cases hf
+    · rename_i amps hamps
+      obtain ⟨hla, hspec⟩ := G3.amps_spec s chans amps hamps
+      have hph : ∃ obs, seqxPhase1 P chans amps = .ok obs := by
+        unfold seqxPhase1
+        obtain ⟨rows', hrowsok⟩ := G3.mapM_ok_of_forall_ex (fun (p : Dict Chan ChOutF × ℕ) =>
+            ((chans.zip amps).mapM (seqxCheckWave (p.2 + 1) p.1)).map List.flatten) (P.zip (List.range P.length)) (by
+          intro x hx
+          obtain ⟨p', hp', rfl⟩ := G3.mem_zip_range P x hx
+          obtain ⟨r, hr⟩ := G3.mapM_ok_of_forall_ex (seqxCheckWave (p' + 1) P[p']) (chans.zip amps) (by
+            intro y hy
+            obtain ⟨i, hi, rfl⟩ := List.getElem_of_mem hy
+            have hic : i < chans.length := by simp at hi; omega
+            have hia : i < amps.length := by simp at hi; omega
+            simp only [List.getElem_zip]
+            obtain ⟨c', w', _, _, hc', hw', _, _⟩ := hmk p' hp' chans[i] (List.getElem_mem hic)
+            obtain ⟨hl2400, hxs⟩ := hlim _ (List.getElem_mem hp') chans[i] (List.getElem_mem hic) c' w' amps[i] hc' hw'
+              (hspec i hic hia)
+            apply (seqxCheckWave_total (p' + 1) P[p'] (chans[i], amps[i]) c' w' hc' hw').2.2.2 hl2400
+            intro xs hev
+            have hxl := G3.wave_eval_length w' xs hev
+            have hne : xs ≠ [] := by
+              intro he; rw [he] at hxl; simp at hxl; omega
+            exact (range_check_iff xs amps[i] hne).1.mpr (hxs xs hev))
+          exact ⟨r.flatten, by simp only [hr, Except.map]⟩)
+        exact ⟨rows'.flatten, by rw [hrowsok]; rfl⟩
+      obtain ⟨obs, hobs⟩ := hph
+      simp only [hobs, hrows]
+      exact ⟨_, _, rfl, rfl, rfl⟩
+  refine ⟨main, ?_⟩
+  obtain ⟨d, pkg, hd, hte, hpk⟩ := main
+  obtain ⟨flags, hfl⟩ := seqxFlags_ok_of_seqx s d hd
+  exact ⟨_, { pkg with flags := some flags }, hfl, hte, by simp [hpk]⟩
+
+/-! ### non-vacuity of the SEQX theorems (concrete sequences of `BB.G3.Ex`, 2400 points per waveform) -/
+
+/-- `seqx_accepts` applied: the two-position, two-channel example with 2400-point waveforms meets
+    every hypothesis, so both variants return a package -/
+theorem ex_seqx_ok :
+    (∃ d pkg, G3.Ex.xseq.outputForSEQXFile = .ok d ∧ d.thenErr = none ∧ d.pkg = some pkg) ∧
+    (∃ d pkg, G3.Ex.xseq.outputForSEQXFileWithFlags = .ok d ∧ d.thenErr = none ∧ d.pkg = some pkg) :=
+  seqx_accepts G3.Ex.xseq G3.Ex.XP G3.Ex.chans G3.Ex.xseq_prepare G3.Ex.xseq_channels
+    (G3.numB_spec_amp _ _ false (by decide +kernel)) (C14.cellsOk_of_check _ _ (by decide +kernel))
+    (G3.seqxLimB_spec _ _ _ (by decide +kernel))
+    (by
+      have hl : G3.Ex.XP.length = 2 := by decide +kernel
+      have := G3.seqCheck_spec G3.Ex.xseq 2 (fun q => decide ((0 ≤ q.twait ∧ q.twait ≤ 3) ∧
+        (0 ≤ q.jump_input ∧ q.jump_input ≤ 3) ∧ (0 ≤ q.nrep ∧ q.nrep ≤ 16383) ∧
+        (-1 ≤ q.jump_target ∧ q.jump_target ≤ 2) ∧ (0 ≤ q.goto ∧ q.goto ≤ 2))) (by decide +kernel)
+      intro p hp q hq
+      rw [hl] at hp ⊢
+      simpa using this p hp q hq)
+
+/-- `seqx_content_channels`, `seqx_ok_limits`, `seqx_delivered_limits`, `seqxFlags_ok_of_seqx`: instance of
+    the hypothesis -/
+example : ∃ d pkg, G3.Ex.xseq.outputForSEQXFile = .ok d ∧ d.pkg = some pkg := by
+  obtain ⟨d, pkg, h, _, hp⟩ := ex_seqx_ok.1
+  exact ⟨d, pkg, h, hp⟩
+
+/-- `seqx_flags_end_to_end`: instance of the hypothesis -/
+example : ∃ d pkg, G3.Ex.xseq.outputForSEQXFileWithFlags = .ok d ∧ d.pkg = some pkg := by
+  obtain ⟨d, pkg, h, _, hp⟩ := ex_seqx_ok.2
+  exact ⟨d, pkg, h, hp⟩
+
+/-- `seqx_value_error` applied (too short): 2399 points on channel 1 of position 2 -/
+example : G3.Ex.xseqShort.outputForSEQXFile = .error .value :=
+  seqx_value_error G3.Ex.xseqShort G3.Ex.XPShort G3.Ex.chans G3.Ex.xseqShort_prepare G3.Ex.xseqShort_channels
+    (G3.numB_spec_amp _ _ false (by decide +kernel)) (G3.waveB_spec _ _ (by decide +kernel))
+    1 (by decide +kernel) (.int 1) (by decide)
+    { out := .arrays [("m1", (G3.Ex.long 1 2399).map (fun _ => 0)), ("m2", (G3.Ex.long 1 2399).map (fun _ => 1)),
+        ("wfm", G3.Ex.long 1 2399)] none none }
+    { blocks := [.raw (G3.Ex.long 1 2399)] } 2
+    (G3.toOption_eq_some _ _ (by decide +kernel)) (by decide +kernel) (by decide +kernel)
+    (.inl (by decide +kernel))
+
+/-- `seqx_value_error` applied (out of range): channel "A" (amplitude 1) sits at 1/2 + 1/1000 at position 2;
+    by `seqxFlags_error_of_seqx` the flags variant raises the same -/
+example : G3.Ex.xseqBadV.outputForSEQXFile = .error .value ∧ G3.Ex.xseqBadV.outputForSEQXFileWithFlags = .error .value := by
+  have h : G3.Ex.xseqBadV.outputForSEQXFile = .error .value :=
+    seqx_value_error G3.Ex.xseqBadV G3.Ex.XPBadV G3.Ex.chans G3.Ex.xseqBadV_prepare G3.Ex.xseqBadV_channels
+      (G3.numB_spec_amp _ _ false (by decide +kernel)) (G3.waveB_spec _ _ (by decide +kernel))
+      1 (by decide +kernel) (.str "A") (by decide)
+      { out := .arrays [("m1", (G3.Ex.long (1/2 + 1/1000)).map (fun _ => 0)), ("m2", (G3.Ex.long (1/2 + 1/1000)).map (fun _ => 1)),
+          ("wfm", G3.Ex.long (1/2 + 1/1000))] none none }
+      { blocks := [.raw (G3.Ex.long (1/2 + 1/1000))] } 1
+      (G3.toOption_eq_some _ _ (by decide +kernel)) (by decide +kernel) (by decide +kernel)
+      (.inr ⟨G3.Ex.long (1/2 + 1/1000), 1/2 + 1/1000, by decide +kernel,
+        List.mem_replicate.mpr ⟨by decide, rfl⟩, .inr (by norm_num)⟩)
+  exact ⟨h, seqxFlags_error_of_seqx _ _ h⟩
+
+/-- `seqx_sequencing_error` applied: 16384 repetitions at position 1, every waveform evaluable -/
+example : G3.Ex.xseqBadRep.outputForSEQXFile = .error .sequencing :=
+  (seqx_sequencing_error G3.Ex.xseqBadRep G3.Ex.XPBadRep G3.Ex.chans G3.Ex.xseqBadRep_prepare G3.Ex.xseqBadRep_channels
+    (G3.numB_spec_amp _ _ false (by decide +kernel)) (C14.cellsOk_of_check _ _ (by decide +kernel))
+    (G3.seqxLimB_spec _ _ _ (by decide +kernel))
+    0 (by decide +kernel) ⟨3, 16384, 0, 2, 0⟩ (by decide +kernel) (by decide)).2
+    (G3.evalB_spec _ _ (by decide +kernel))
+
+/-- `addFlags_ok_spec`: an accepted call (letter aliases and ints mixed) -/
+example : (G3.Ex.xel0.addFlags (.str "A") G3.Ex.tokens).err = none := by decide +kernel
+
+/-- `flags_bad_token` applied: the token 'X' -/
+example : (G3.Ex.el1.addFlags (.str "A") [.str "H", .str "X", .num 0, .num 0]).err = some .value ∧
+    (G3.Ex.el1.addFlags (.str "A") [.str "H", .str "X", .num 0, .num 0]).st = G3.Ex.el1 :=
+  flags_bad_token _ _ _ (.str "X") (by simp) (by decide)
+
+/-- `flags_unknown_channel`: instance of the hypotheses -/
+example : Dict.get? G3.Ex.el1.chans (.str "B") = none ∧ G3.Ex.tokens.mapM flagToken? = some [1, 0, 4, 2] := by
+  decide +kernel
+
+/-- `seqx_flags_of_addFlags` applied: the tokens H, 0, P, 2 given to `addFlags` on channel "A" of the
+    element at position 1 come out as `flags[1][0] = [1, 0, 4, 2]` -/
+example : ∃ d pkg flags, G3.Ex.xseq.outputForSEQXFileWithFlags = .ok d ∧ d.pkg = some pkg ∧ pkg.flags = some flags ∧
+    (flags[1]?).bind (·[0]?) = some [1, 0, 4, 2] := by
+  obtain ⟨d, pkg, h, _, hp⟩ := ex_seqx_ok.2
+  obtain ⟨flags, ints, hf, hcell, _, _, htok⟩ :=
+    seqx_flags_of_addFlags G3.Ex.xseq d pkg h hp G3.Ex.chans G3.Ex.xseq_channels 1 (by decide) 0 (by decide)
+      G3.Ex.xel0 G3.Ex.xel1 G3.Ex.tokens (by decide +kernel) rfl rfl
+  have : G3.Ex.tokens.mapM flagToken? = some [1, 0, 4, 2] := by decide +kernel
+  rw [this] at htok
+  cases htok
+  exact ⟨d, pkg, flags, h, hp, hf, hcell⟩
+
+/-! ### model note: order of the amplitude type check and the length check -/
+
+/-- one position, one channel with a 1-point waveform and a non-numeric amplitude (`None`) -/
+def shortNoneSeq : Sequence :=
+  { data := [(1, .el { chans := [(.int 1, { data := .arr [("m1", [0]), ("m2", [0]), ("wfm", [0])] (.num 10) })] })],
+    sequencing := [(1, ⟨0, 1, 0, 0, 0⟩)],
+    awgspecs := [("SR", .val (.num 10)), ("channel1_amplitude", .val .none)] }
+
+/-- MODEL GAP (error kind only): with a non-numeric amplitude AND a waveform shorter than 2400 points the
+    model's `outputForSEQXFile` raises TypeError (it converts the amplitudes first), whereas the code raises
+    ValueError "Waveform too short" (it divides `ampl / 2` only after the length check; checked against
+    broadbean with amplitude `None` and `"x"`).  Both raise; `seqx_value_error` assumes numeric
+    amplitudes (`hnum`) and is not affected. -/
+example : (match shortNoneSeq.outputForSEQXFile with | .error e => some e | .ok _ => none) = some Err.type := by
+  decide +kernel
 
 end BB.C15
